@@ -32,6 +32,25 @@ fn main() {
             let n: u16 = args.get(2).and_then(|s| s.parse().ok()).unwrap_or(1);
             print!("{}", checks::c03::dump_example(n));
         }
+        "lspdump" => {
+            // debugging aid: print definition/type answers at the start of every identifier
+            let text = std::fs::read_to_string(&args[2]).expect("read");
+            worker::install_panic_hook();
+            let files = proto::single(text.clone());
+            let mut pts = vec![];
+            let b = text.as_bytes();
+            for i in 0..b.len() {
+                let is_id = |c: u8| c.is_ascii_alphanumeric() || c == b'_';
+                if is_id(b[i]) && (i == 0 || !is_id(b[i - 1])) {
+                    pts.push(("main.abra".to_string(), i));
+                }
+            }
+            let out = worker::exec_lsp(&files, "main.abra", false, &pts, true);
+            for a in out.answers {
+                let end = (a.offset..text.len()).find(|j| !(b[*j].is_ascii_alphanumeric() || b[*j] == b'_')).unwrap_or(text.len());
+                println!("{:4} {:12} def={:?} type={:?}", a.offset, &text[a.offset..end], a.definition.map(|d| (d.1, d.2)), a.ty);
+            }
+        }
         "list" => {
             for id in checks::ids() {
                 println!("{id}");
